@@ -334,11 +334,13 @@ return biogeme.tools.likelihood_ratio.likelihood_ratio_test((_LU, _KU), (_LR, _K
     ctx.need(len(rows) == 1, 'get_estimated_parameters builds one row per element of data.betas')
     bv = unparse(rows[0].target)
     n_lab = 0
-    for d in [n for n in ast.walk(rows[0]) if isinstance(n, ast.Dict) and n.keys and all(isinstance(k, ast.Constant) and isinstance(k.value, str) for k in n.keys) and len(n.keys) >= 3]:
+    seen_labels = set()
+    for d in [n for n in ast.walk(rows[0]) if isinstance(n, ast.Dict) and n.keys and all(isinstance(k, ast.Constant) and isinstance(k.value, str) for k in n.keys)]:
         for k, v in zip(d.keys, d.values):
             lab = k.value
             if lab == 'Active bound':
                 continue
+            seen_labels.add(lab)
             want = PARAM_LABELS.get(lab)
             want = want.replace('b.', bv + '.', 1) if want else None
             ok = want is not None and unparse(v) == want
@@ -353,16 +355,31 @@ return biogeme.tools.likelihood_ratio.likelihood_ratio_test((_LU, _KU), (_LR, _K
             rowvar = n.targets[0].id
     for n in ast.walk(rows[0]):
         if isinstance(n, ast.Assign) and isinstance(n.targets[0], ast.Subscript) and unparse(n.targets[0].value) == rowvar:
-            lab = unparse(n.targets[0].slice)
-            if 'Std err' in lab:
+            lab_node = n.targets[0].slice
+            if isinstance(lab_node, ast.Name):
+                # a label computed once and kept in a local: read its (single) definition
+                defs = [a.value for a in ast.walk(gp.node) if isinstance(a, ast.Assign) and len(a.targets) == 1 and isinstance(a.targets[0], ast.Name) and a.targets[0].id == lab_node.id]
+                if len(defs) == 1:
+                    lab_node = defs[0]
+            lab = unparse(lab_node)
+            if isinstance(lab_node, ast.Constant) and lab_node.value == 'Active bound':
+                continue
+            if isinstance(lab_node, ast.JoinedStr) and lab_node.values and isinstance(lab_node.values[0], ast.Constant) and str(lab_node.values[0].value).startswith('Bootstrap[') \
+                    and isinstance(lab_node.values[-1], ast.Constant) and str(lab_node.values[-1].value).endswith('Std err'):
                 want = f'{bv}.bootstrap_stdErr'
+                seen_labels.add('Bootstrap Std err')
+            elif isinstance(lab_node, ast.Constant) and isinstance(lab_node.value, str):
+                seen_labels.add(lab_node.value)
+                want = (PARAM_LABELS.get(lab_node.value) or '?').replace('b.', bv + '.', 1)
             else:
-                want = (PARAM_LABELS.get(lab.strip("'")) or '?').replace('b.', bv + '.', 1)
+                want = '?'
             ok = unparse(n.value) == want
             n_lab += 1
             other = '?' not in want and not ok and re.fullmatch(rf'{re.escape(bv)}\.\w+', unparse(n.value)) is not None
             ctx.add('C08.R3', f'get_estimated_parameters[{lab[:30]}]', ok if (ok or other) else None, (gp.file, n.lineno), f'{lab[:40]}: {unparse(n.value)}' + ('' if ok else (f'; the label names {want}' if other else ': label or cell not in the expected form')),
                     f'{lab}:{unparse(n.value).replace(bv + ".", "b.")}', positive=other)
+    missing = sorted((set(PARAM_LABELS) | {'Bootstrap Std err'}) - seen_labels)
+    ctx.add('C08.R3', 'get_estimated_parameters:labels', True if not missing else None, gp, 'every column of the parameter table is filled in the row loop' if not missing else f'no cell found for the column(s) {missing}', str(missing))
     ok = has(rows[0], f'_T.loc[{bv}.name] = pd.Series({rowvar})') and not any(isinstance(x, (ast.Continue, ast.Break)) for x in ast.walk(rows[0]))
     ctx.add('C08.R3', 'get_estimated_parameters:rows', ok, gp, 'one row per estimated parameter, indexed by its name' if ok else 'rows of the parameter table changed', 'rows')
     gc = BR.methods['get_correlation_results']
@@ -448,7 +465,7 @@ for _I, _BI in enumerate(self.data.betas):
         _VC.at[_BI.name, _BJ.name] = self.data.{fam}varCovar[_I, _J]
 """)
         ctx.add('C08.R3', f'get_{fam}var_covar', ok, m, f'returns the {FAMNAME[fam]} matrix, rows and columns named in the order of the parameters' if ok else f'get_{fam}var_covar reads {sorted(reads)}', str(sorted(reads)))
-    ctx.floor('C08.R3', 60)
+    ctx.floor('C08.R3', 52)  # 10 distinct parameter-table labels + 12 correlation + general statistics + compiled table + matrices
 
 
 _R = 'src/biogeme/results.py'
